@@ -20,7 +20,9 @@ HasBody(a) == a \notin {"create", "update", "partial_update", "delete", "action_
 WrapStatus(a) == IF a \in {"action", "action_noresult"} THEN 400 ELSE 500
 
 ErrFields == {"status", "message", "code", "serviceErrorCode", "exceptionClass", "details"}
-Outcomes == {[k |-> "value"], [k |-> "override"], [k |-> "nil"], [k |-> "error"], [k |-> "panic"]}
+\* "wrapped": an ordinary error that merely WRAPS an error response (fmt.Errorf("...: %w", errResp)) -- it is not itself an error
+\* response, so it is reported like any other error
+Outcomes == {[k |-> "value"], [k |-> "override"], [k |-> "nil"], [k |-> "error"], [k |-> "wrapped"], [k |-> "panic"]}
             \cup {[k |-> "errresp", f |-> fs] : fs \in ErrFieldSets}
 ErrStatus == 418       \* the status a resource sets in its error response
 Unset == -1
@@ -47,7 +49,7 @@ Wrap == /\ pc = "wrap"
                [] outcome.k = "override" -> [k |-> "ok", status |-> 202]
                [] outcome.k = "errresp"  -> [k |-> "err", status |-> IF "status" \in outcome.f THEN ErrStatus ELSE Unset,
                                              fields |-> outcome.f, msg |-> "resource"]
-               [] outcome.k = "error"    -> [k |-> "err", status |-> WrapStatus(adapter), fields |-> {"status", "message"}, msg |-> "wrapped"]
+               [] outcome.k \in {"error", "wrapped"} -> [k |-> "err", status |-> WrapStatus(adapter), fields |-> {"status", "message"}, msg |-> "wrapped"]
                [] outcome.k = "panic"    -> [k |-> "err", status |-> 500, fields |-> {"status", "message"}, msg |-> "panic"]
                [] outcome.k = "nil"      -> [k |-> "err", status |-> 500, fields |-> {"status", "message"}, msg |-> "nil entity"]
         /\ pc' = "respond"
@@ -82,7 +84,7 @@ ErrorsArriveFaithfully ==
            /\ http.status = (IF "status" \in outcome.f THEN ErrStatus ELSE 500) /\ http.errhdr
            /\ client.k = "resterr" /\ outcome.f \subseteq client.fields
            /\ client.fields \subseteq outcome.f \cup {"message", "status"}     \* only defaults may be added
-      [] outcome.k \in {"error", "panic", "nil"} ->
+      [] outcome.k \in {"error", "wrapped", "panic", "nil"} ->
            /\ Failure(http.status) /\ http.errhdr /\ client.k = "resterr" /\ "message" \in client.fields
       [] outcome.k = "value" -> /\ http.status = DefaultStatus(adapter) /\ ~http.errhdr /\ client.k = "value"
       [] outcome.k = "override" -> /\ http.status = 202 /\ ~http.errhdr /\ client.k = "value"
